@@ -142,7 +142,7 @@ Proof. exact (sb_pure_native sb_cur_facts). Qed.
 Print Assumptions C19_pure_native.
 
 (* HIDDEN READS THROUGH NATIVES.  Every accessor fetching a field of a reflected object that a side-effect-free native can
-   reach (callees resolved by name in lib/base, depth 3) is GetFieldByName(.., sandboxed = true, ..), which tests
+   reach (its own body and the bodies of its callees, resolved by name in lib/base) is GetFieldByName(.., sandboxed = true, ..), which tests
    no_user_view; Reference#get (= Reference::Get, modelled as the same checked read as `*ref`) is refused on a reference to
    a no_user_view field such as ApiUser.password / ApiListener.ticket_salt and fetches nothing *)
 Theorem C19_native_read_paths :
